@@ -16,6 +16,7 @@ Sub-spaces (`sub` of a case):
   gridsize  every grid size whose integer value is <= 0 (0, -1, -0.0, 0.5, 0.999, 1e-300, -0.5, ...) per axis
             (constructor, dictionaries with canonical keys and width/height/depth, JSON files)
   cgperiodic coarse-graining a grid that has a periodical axis, through all 4 entry points
+  rxspecies  a reaction of a network naming an undeclared species on either side, through every construction route
   envlen    cell_env of length n-1, n+1, 0 (constructor, setter, dictionaries; list / tuple / ndarray)
   envidx    an environment index >= number of environments at each cell, at every point of use (system
             construction with default state / chemostats, set_default_*, generate_*, kinetics, engine set-up)
@@ -69,6 +70,8 @@ from strengths.coarsegrain import coarsegrain_system, coarsegrain_grid  # noqa: 
 from strengths.simulate import simulate_script, simulate  # noqa: E402
 from strengths.rdspace import load_rdspace  # noqa: E402
 from strengths.rdsystem import load_rdsystem  # noqa: E402
+from strengths.rdnetwork import load_rdnetwork  # noqa: E402
+from strengths.rdscript import load_rdscript  # noqa: E402
 from strengths import kinetics  # noqa: E402
 
 P = "C20"
@@ -2008,12 +2011,102 @@ def _cgperiodic(case, out):
     return True
 
 
+# ---- unknown species inside the reactions of a network ------------------------------------------------------------
+
+# (name, side, substrate terms, product terms); a term is (coefficient, label); "U" / "V" = the unknown label(s)
+RX_TEMPLATES = [
+    ("only", "substrate", [(1, "U")], [(1, "B")]),
+    ("first", "substrate", [(1, "U"), (1, "A")], [(1, "B")]),
+    ("second", "substrate", [(1, "A"), (1, "U")], [(1, "B")]),
+    ("coefficient", "substrate", [(2, "U"), (1, "A")], [(1, "B")]),
+    ("empty-other-side", "substrate", [(1, "U")], []),
+    ("only", "product", [(1, "A")], [(1, "U")]),
+    ("first", "product", [(1, "A")], [(1, "U"), (1, "B")]),
+    ("second", "product", [(1, "A")], [(1, "B"), (1, "U")]),
+    ("coefficient", "product", [(1, "A")], [(1, "B"), (2, "U")]),
+    ("empty-other-side", "product", [], [(1, "U")]),
+    ("only", "both", [(1, "U")], [(1, "U")]),
+    ("first", "both", [(1, "U"), (1, "A")], [(1, "U"), (1, "B")]),
+    ("second", "both", [(1, "A"), (1, "U")], [(1, "B"), (1, "U")]),
+    ("two-unknowns", "both", [(1, "U")], [(1, "V")]),
+]
+RX_UNKNOWN = [("C", "D"), ("a", "b"), ("AB", "BA"), ("Z", "z"), ("A2", "B2")]     # declared species: A, B
+RX_ROUTES = ("RDNetwork", "rdnetwork_from_dict", "rdsystem_from_dict", "rdscript_from_dict", "load_rdnetwork(json)",
+             "load_rdsystem(json)", "load_rdscript(json)")
+RX_SLOTS = ("alone", "first-of-two", "second-of-two")
+
+
+def _rx_stoichiometry(form, subs, prods, u, v):
+    def lab(x):
+        return {"U": u, "V": v}.get(x, x)
+    if form == "string":
+        def side(terms):
+            return " + ".join((lab(x) if c == 1 else "%d %s" % (c, lab(x))) for c, x in terms)
+        return side(subs) + " -> " + side(prods)
+    return [{lab(x): c for c, x in subs}, {lab(x): c for c, x in prods}]
+
+
+def _rx_attempt(route, sto_list):
+    """sto_list: stoichiometries (string or [dict, dict]) of the network's reactions, in order."""
+    if route == "RDNetwork":
+        return lambda: RDNetwork([Species("A", density=1), Species("B", density=2)],
+                                 [Reaction(st, kf=0, kr=0) for st in sto_list])
+    nd = {"species": [{"label": "A", "density": 1}, {"label": "B", "density": 2}],
+          "reactions": [{"eq": st} for st in sto_list]}
+    sd = {"network": nd, "space": {"w": 2}}
+    cd = {"system": sd, "t_sample": [0, 1]}
+    if route == "rdnetwork_from_dict":
+        return lambda: rdnetwork_from_dict(nd)
+    if route == "rdsystem_from_dict":
+        return lambda: rdsystem_from_dict(sd)
+    if route == "rdscript_from_dict":
+        return lambda: rdscript_from_dict(cd)
+    if route == "load_rdnetwork(json)":
+        return lambda: _via_json(load_rdnetwork, nd)
+    if route == "load_rdsystem(json)":
+        return lambda: _via_json(load_rdsystem, sd)
+    if route == "load_rdscript(json)":
+        return lambda: _via_json(load_rdscript, cd)
+    raise ValueError(route)
+
+
+def _rxspecies(case, out):
+    route, form = case["route"], case["form"]
+    only = case.get("only")
+    other = "A -> B" if form == "string" else [{"A": 1}, {"B": 1}]
+    key0 = "%s:reaction-species:%s" % (P, route)
+
+    def reactions(slot, st):
+        return {"alone": [st], "first-of-two": [st, other], "second-of-two": [other, st]}[slot]
+    k = 0
+    for name, side, subs, prods in RX_TEMPLATES:
+        # valid counterpart: the same shape over declared species only
+        good = _rx_stoichiometry(form, subs, prods, "B", "A")
+        for slot in RX_SLOTS:
+            accept(out, "reaction-species", key0, "%s with reactions %r (species A, B)" % (route, reactions(slot, good)),
+                   _rx_attempt(route, reactions(slot, good)))
+        for u, v in RX_UNKNOWN:
+            st = _rx_stoichiometry(form, subs, prods, u, v)
+            for slot in RX_SLOTS:
+                item = {"template": name, "side": side, "u": u, "slot": slot}
+                if not _selected(only, item):
+                    continue
+                if k % 8 == 0:
+                    accept(out, "reaction-species", key0, "%s with reactions %r (replayed between invalid inputs)"
+                           % (route, reactions(slot, good)), _rx_attempt(route, reactions(slot, good)))
+                k += 1
+                reject(out, "reaction-species", "%s:%s:%s" % (key0, side, form),
+                       "%s (declared species A, B) with reactions %r: undeclared species on the %s side (%s, %s)"
+                       % (route, reactions(slot, st), side, name, slot), _rx_attempt(route, reactions(slot, st)), item)
+    return True
+
+
 # =====================================================================================================
 # dispatch, enumeration
 # =====================================================================================================
 
 SUBS = {"keys": _keys, "dim": _dim, "usym": _usym, "gridsize": _gridsize, "envlen": _envlen, "envidx": _envidx,
-        "enum": _enum, "edgeidx": _edgeidx, "cgperiodic": _cgperiodic, "pos": _pos, "species": _species, "reaction": _reaction, "cgmap": _cgmap}
+        "enum": _enum, "edgeidx": _edgeidx, "cgperiodic": _cgperiodic, "rxspecies": _rxspecies, "pos": _pos, "species": _species, "reaction": _reaction, "cgmap": _cgmap}
 
 
 def _run_case(case):
@@ -2153,12 +2246,18 @@ def _spaces(tier):
     for shape in CGP_SHAPES:
         for route in CGP_ROUTES:
             small.append({"sub": "cgperiodic", "shape": list(shape), "route": route})
+    for route in RX_ROUTES:
+        for form in ("string", "dict"):
+            small.append({"sub": "rxspecies", "route": route, "form": form})
     sp.append(("small: grid sizes 0/-1 per axis x routes; cell_env lengths n-1/n+1/0/2n x shapes x routes x "
                "containers; unknown boundary condition / axis / sampling policy / init_state_processing / empty "
                "environment list / environment 'default' x routes; RDGraphSpace.check() with an edge end outside the graph "
                "(graphs of 1..4 nodes); coarse-graining (coarsegrain_grid / coarsegrain_system / simulate_script / simulate) "
                "of 4x1x1, 2x2x1, 3x2x2 grids with each of the 7 non-reflecting boundary settings (full and partial "
                "dictionaries) x valid maps; grid sizes now every value of integer size <= 0 %r x 10 routes incl. JSON files"
+               "; reactions naming an undeclared species (substrate / product / both sides; only, first, second term, "
+               "with a coefficient, empty other side; 5 unknown labels incl. wrong case; string and dict stoichiometry; "
+               "alone / first / second reaction) x RDNetwork, network / system / script dictionaries and JSON files"
                % (BAD_SIZES,), small, 2))
     return sp
 
